@@ -171,3 +171,43 @@ def direct_only(node):
     if out.get("k") == "Routine" and out.get("alg") in ("CG", "GMRES", "Lanczos", "Arnoldi"):
         out["alg"] = None
     return out
+
+
+def gen_routine_directed(rng, dt, n=None):
+    """Routine results over *structured* arguments and over other routine results (each inverse rule returns its own kind of
+    lazy object: TriangularInv, permutation, factor-wise Kronecker / BlockDiag / Product of inverses, ...)."""
+    n = int(rng.integers(1, 6)) if n is None else n
+    tri = lambda m: gen_leaf(rng, m, dt, ["Triangular"])  # noqa: E731
+    psd = lambda m: gen_invertible(rng, 0, dt, m, True, ["Dense"])  # noqa: E731
+    chol = lambda m: {"k": "Routine", "fn": "cholL", "alg": None, "arg": psd(m)}  # noqa: E731
+    alg = S.pick(rng, [None, None, "Auto", "LU"])
+    form = S.pick(rng, ["tri", "tri", "chol-inv", "cholH-inv", "kron-tri", "bd", "perm", "prod", "inv-inv", "tri-T", "diag", "plu-U"])
+    if form == "tri":
+        arg = tri(n)
+    elif form == "chol-inv":
+        arg = chol(n)
+    elif form == "cholH-inv":
+        arg = {"k": S.pick(rng, ["Adjoint", "Transpose"]) if dt in ("f4", "f8") else "Adjoint", "via": S.pick(rng, ["ctor", "fn"]), "arg": chol(n)}
+    elif form == "kron-tri":
+        divs = [d for d in range(1, n + 1) if n % d == 0]
+        a = int(S.pick(rng, divs))
+        arg = {"k": "Kronecker", "via": "ctor", "args": [tri(a), S.pick(rng, [tri, chol])(n // a)]}
+    elif form == "bd" and n >= 2:
+        mu = 2 if (n >= 3 and rng.random() < 0.5) else 1
+        a = int(rng.integers(1, (n - 1) // mu + 1))
+        arg = {"k": "BlockDiag", "via": "ctor", "mult": [mu, 1], "args": [tri(a), gen_leaf(rng, n - mu * a, dt, ["Dense", "Triangular", "Diagonal"])]}
+    elif form == "bd":
+        arg = tri(n)
+    elif form == "perm":
+        arg = gen_leaf(rng, n, dt, ["Permutation"])
+    elif form == "prod":
+        arg = {"k": "Product", "via": S.pick(rng, ["ctor", "fn"]), "args": [tri(n), gen_leaf(rng, n, dt, ["Dense", "Triangular", "Permutation"])]}
+    elif form == "inv-inv":
+        arg = {"k": "Routine", "fn": "inv", "alg": S.pick(rng, [None, "Auto", "LU"]), "arg": gen_leaf(rng, n, dt, ["Dense", "Triangular", "Diagonal"])}
+    elif form == "tri-T":
+        arg = {"k": S.pick(rng, ["Adjoint", "Transpose"]), "via": S.pick(rng, ["ctor", "fn"]), "arg": tri(n)}
+    elif form == "diag":
+        arg = gen_leaf(rng, n, dt, ["Diagonal", "ScalarMul"])
+    else:  # the triangular factors plu hands out, inverted one by one:  inv(U) @ inv(L) @ P^T  (as a product of routine results)
+        arg = gen_leaf(rng, n, dt, ["Dense"])
+    return {"k": "Routine", "fn": "inv", "alg": alg, "arg": arg}
